@@ -1443,6 +1443,18 @@ class HplFunctionCall(HplExpression):
 
     def __attrs_post_init__(self):
         object.__setattr__(self, 'data_type', self.function.result)
+        # narrow each argument to the parameter types of the matching overloads
+        types = tuple(arg.data_type for arg in self.arguments)
+        sigs = [sig for sig in self.function.overloads if sig.accepts(types)]
+        args = tuple(
+            arg.cast(
+                DataType.union(
+                    sig.parameters[i] if i < sig.arity else sig.variadic for sig in sigs
+                )
+            )
+            for i, arg in enumerate(self.arguments)
+        )
+        object.__setattr__(self, 'arguments', args)
 
     @property
     def is_function_call(self) -> bool:
